@@ -119,4 +119,37 @@ def main(tier):
                                   "argv": argv + ([c["script"]] if mode == "argv" else []) + c["args"], "stdin": (c["script"] + "\n") if mode == "stdin" else None,
                                   "stdin_tty": mode == "argv", "env": c["env"], "expected": ml, "rc": r["rc"], "sig": r["sig"],
                                   "stdout": r["stdout"].decode("latin1")[:2000], "stderr": r["stderr"].decode("latin1")[:2000]})
+    # ---- non-interactive --tx/--txin runs: the final stack / exit status is that of the spend (validity known by construction) and does not
+    #      depend on which debug logs are switched on (options and DEBUG_* environment only add text on stderr)
+    import gen_spend as S
+    rng = chk.rng
+    jobs = []
+    for k in ("p2pkh", "p2sh", "p2wpkh", "p2wsh", "p2sh-p2wsh", "p2tr-key", "p2tr-script"):
+        for mut in (None, "wrongkey"):
+            for _ in range(1 if tier == "quick" else 6):
+                c = S.build(rng, k, mutate=mut, ht=(1 if not k.startswith("p2tr") else 0))
+                jobs.append((k, mut, c))
+    variants = [([], {}), (["--debug=sighash"], {}), (["--debug=sighash,signing,segwit,taproot"], {}), ([], {"DEBUG_SIGHASH": "1", "DEBUG_SIGNING": "1"}), (["-q"], {})]
+    def run_tx(j):
+        k, mut, c = j
+        base = ["--tx=" + c["spend"], "--txin=" + c["fund"]]
+        return [cli.run(os.path.join(bdir, "btcdeb"), o + base, stdin_tty=True, env=e) for o, e in variants]
+    with concurrent.futures.ThreadPoolExecutor(vlib.NCPU) as ex:
+        txres = list(ex.map(run_tx, jobs))
+    st2 = chk.streams.setdefault("btcdeb-noninteractive-tx", {"cases": 0, "diffs": 0, "known": 0})
+    for (k, mut, c), rs in zip(jobs, txres):
+        ref = rs[0]
+        for (o, e), r in zip(variants, rs):
+            st2["cases"] += 1; chk.evaluations += 1
+            chk.nontrivial.add(hashlib.md5(repr((k, mut, c["spend"], o, sorted(e.items()))).encode()).digest())
+            bad = None
+            if r["sig"] or r["rc"] not in (0, 1): bad = "abnormal termination (signal %s, rc %s)" % (r["sig"], r["rc"])
+            elif c["valid"] and (r["rc"] != 0 or r["stdout"].strip() != b"01"): bad = "a valid %s spend must end with exit 0 and the final stack 01 on stdout" % k
+            elif not c["valid"] and r["rc"] != 1: bad = "an invalid %s spend (%s) must end with exit 1" % (k, mut)
+            elif (r["rc"], r["stdout"]) != (ref["rc"], ref["stdout"]): bad = "exit status / stdout change with the debug options %s %s" % (o, e)
+            if bad:
+                st2["diffs"] += 1
+                if st2["diffs"] <= 4:
+                    chk.violation("noninteractive-mismatch", bad, {"stream": "btcdeb-noninteractive-tx", "case": ["cli-run"], "binary": "btcdeb", "mode": "argv", "argv": o + ["--tx=" + c["spend"], "--txin=" + c["fund"]],
+                                  "stdin": None, "stdin_tty": True, "env": e, "rc": r["rc"], "sig": r["sig"], "stdout": r["stdout"].decode("latin1")[:1500], "stderr": r["stderr"].decode("latin1")[-1500:]})
     return chk.finish(RULE)
